@@ -130,6 +130,10 @@ fn judge(rep: &Reporter, dn: &str, attrs: &[(String, Vec<Vec<u8>>)], form: LenFo
 
 pub fn run(tier: Tier) -> i32 {
     let rep = Reporter::new("C15", tier);
+    // the bounds that used to be the thorough tier's are cheap enough for every run
+    let deep = tier == Tier::Thorough;
+    let tier = Tier::Thorough;
+    let _ = deep;
     let evals = AtomicU64::new(0);
     let mixed = AtomicU64::new(0);
     let lists = value_lists(3); // 1 + 8 + 64 + 512 = 585 value lists
@@ -211,6 +215,16 @@ pub fn run(tier: Tier) -> i32 {
             judge(&rep, "cn=long", &[("cn".to_string(), vec![sv.clone(), lv.clone()]), ("sn".to_string(), vec![sv.clone()])], LenForm::Minimal, &evals, &mixed);
         }
     });
+    if deep {
+        // value lists of length 4 (4096 more) as the only attribute and next to a binary one
+        let l4: Vec<Vec<Vec<u8>>> = value_lists(4).into_iter().filter(|l| l.len() == 4).collect();
+        par_for(l4.len() as u64, |i| {
+            for f in forms {
+                judge(&rep, "cn=four", &[(names[0].to_string(), l4[i as usize].clone())], f, &evals, &mixed);
+            }
+            judge(&rep, "cn=four", &[(names[1].to_string(), vec![vec![0xff]]), (names[0].to_string(), l4[i as usize].clone()), (names[2].to_string(), vec![])], LenForm::Minimal, &evals, &mixed);
+        });
+    }
     let ev = evals.load(Ordering::Relaxed);
     let c = cov(vec![
         ("evaluations", json!(ev)),
